@@ -1,4 +1,5 @@
 import ACModel.Model.Summary
+import ACModel.Model.History
 /-
   C16 — summary() and history() truthfully describe the fitted object
 
@@ -134,3 +135,151 @@ example : s0.summary none = .ok [⟨"c", false, .str "A", [.str "A"]⟩, ⟨"c",
   decide
 
 end C16
+
+/-! ## history(): how the candidates are tested and recorded -/
+
+namespace HistoryThm
+open Hist
+
+variable {α : Type}
+
+/-- the winner is the first viable candidate in test order -/
+theorem testInOrder_winner (viable : α → Bool) : ∀ l : List α, (testInOrder viable l).2 = l.find? viable := by
+  intro l
+  induction l with
+  | nil => rfl
+  | cons c t ih =>
+    unfold testInOrder
+    by_cases h : viable c = true
+    · simp [h]
+    · have hf : viable c = false := by simpa using h
+      simp [hf, ih]
+
+/-- **every tested combination is recorded**, in test order -/
+theorem testInOrder_records_all (viable : α → Bool) : ∀ l : List α, (testInOrder viable l).1.map (·.cand) = l := by
+  intro l
+  induction l with
+  | nil => rfl
+  | cons c t ih =>
+    unfold testInOrder
+    by_cases h : viable c = true
+    · simp [h, List.map_map, Function.comp_def]
+    · simp only [h, Bool.false_eq_true, if_false, List.map_cons, ih]
+
+/-- the recorded flags have the shape: rejected …, at most one winner, then "Not checked" only -/
+theorem testInOrder_shape (viable : α → Bool) : ∀ l : List α,
+    roundShape ((testInOrder viable l).1.map (·.viability)) = true := by
+  intro l
+  induction l with
+  | nil => rfl
+  | cons c t ih =>
+    unfold testInOrder
+    by_cases h : viable c = true
+    · simp [h, roundShape, List.map_map, Function.comp_def]
+    · simp only [h, Bool.false_eq_true, if_false, List.map_cons, roundShape]
+      exact ih
+
+/-- **the last (indeed the only) entry flagged viable is the winner** -/
+theorem testInOrder_lastViable (viable : α → Bool) : ∀ l : List α,
+    lastViable (testInOrder viable l).1 = (testInOrder viable l).2 := by
+  intro l
+  induction l with
+  | nil => rfl
+  | cons c t ih =>
+    unfold testInOrder
+    by_cases h : viable c = true
+    · have hnone : (t.map (fun d => (⟨d, none⟩ : Entry α))).filter (fun e => e.viability == some true) = [] := by
+        rw [List.filter_eq_nil_iff]
+        intro e he
+        obtain ⟨d, _, rfl⟩ := List.mem_map.1 he
+        simp
+      simp [h, lastViable, List.filter_cons, hnone]
+    · simp only [h, Bool.false_eq_true, if_false]
+      unfold lastViable at ih ⊢
+      simp only [List.filter_cons]
+      have : ((⟨c, some false⟩ : Entry α).viability == some true) = false := by simp
+      simp only [this, Bool.false_eq_true, if_false]
+      exact ih
+
+/-- an entry is left "Not checked" only if it comes after the winner in test order: with the
+    candidates sorted by decreasing association, **every unchecked combination is at most as
+    associated as the fitted one** -/
+theorem testInOrder_unchecked_after (viable : α → Bool) (key : α → Option Rat) (le : Option Rat → Option Rat → Prop) :
+    ∀ l : List α, l.Pairwise (fun a b => le (key b) (key a)) →
+    ∀ e ∈ (testInOrder viable l).1, e.viability = none →
+      ∃ w, (testInOrder viable l).2 = some w ∧ le (key e.cand) (key w) := by
+  intro l
+  induction l with
+  | nil => intro _ e he; cases he
+  | cons c t ih =>
+    intro hs e he hnone
+    unfold testInOrder at he ⊢
+    rw [List.pairwise_cons] at hs
+    by_cases h : viable c = true
+    · simp only [h, if_true] at he ⊢
+      rcases List.mem_cons.1 he with rfl | he'
+      · simp at hnone
+      · obtain ⟨d, hd, rfl⟩ := List.mem_map.1 he'
+        exact ⟨c, rfl, hs.1 d hd⟩
+    · simp only [h, Bool.false_eq_true, if_false] at he ⊢
+      rcases List.mem_cons.1 he with rfl | he'
+      · simp at hnone
+      · exact ih hs.2 e he' hnone
+
+/-- **For every kept feature the last combination flagged viable is exactly the fitted
+    grouping**, over both rounds: the round on the non-missing modalities and, when it is run, the
+    round that places the missing values. -/
+theorem twoRounds_lastViable_is_fit (viable : α → Bool) (round1 : List α) (second : Bool) (round2 : α → List α)
+    (fitted : α) (h : (twoRounds viable round1 second round2).2 = some fitted) :
+    lastViable (twoRounds viable round1 second round2).1 = some fitted := by
+  unfold twoRounds at h ⊢
+  cases h1 : (testInOrder viable round1).2 with
+  | none => rw [h1] at h; simp at h
+  | some w1 =>
+    rw [h1] at h
+    simp only [] at h ⊢
+    by_cases hs : second = true
+    · simp only [hs, if_true] at h ⊢
+      -- the second round has a winner (the feature is kept), so its last viable entry is the last of all
+      have h2 := testInOrder_lastViable viable (round2 w1)
+      rw [h] at h2
+      unfold lastViable at h2 ⊢
+      rw [List.filter_append]
+      cases hf : (testInOrder viable (round2 w1)).1.filter (fun e => e.viability == some true) with
+      | nil => rw [hf] at h2; simp at h2
+      | cons x xs =>
+        rw [hf] at h2
+        rw [List.getLast?_append]
+        cases hl : (x :: xs).getLast? with
+        | none => rw [hl] at h2; simp at h2
+        | some e => rw [hl] at h2; simpa using h2
+    · simp only [hs, Bool.false_eq_true, if_false] at h ⊢
+      injection h with h
+      subst h
+      rw [← h1]
+      exact testInOrder_lastViable viable round1
+
+/-- a dropped feature has no winner in the round that failed (so "kept" and "has a last viable
+    entry in its last round" go together) -/
+theorem twoRounds_dropped (viable : α → Bool) (round1 : List α) (second : Bool) (round2 : α → List α)
+    (h : (twoRounds viable round1 second round2).2 = none) :
+    round1.find? viable = none ∨ (second = true ∧ ∃ w1, round1.find? viable = some w1 ∧ (round2 w1).find? viable = none) := by
+  unfold twoRounds at h
+  cases h1 : (testInOrder viable round1).2 with
+  | none => left; rw [← testInOrder_winner]; exact h1
+  | some w1 =>
+    rw [h1] at h
+    simp only [] at h
+    right
+    by_cases hs : second = true
+    · simp only [hs, if_true] at h
+      exact ⟨hs, w1, by rw [← testInOrder_winner]; exact h1, by rw [← testInOrder_winner]; exact h⟩
+    · simp [hs] at h
+
+/-! non-vacuity: candidates 5 (rejected), 3 (winner), 2 and 1 (not checked) -/
+example : testInOrder (fun n : Nat => n % 3 == 0) [5, 3, 2, 1] =
+    ([⟨5, some false⟩, ⟨3, some true⟩, ⟨2, none⟩, ⟨1, none⟩], some 3) := by decide
+example : (twoRounds (fun n : Nat => n % 3 == 0) [5, 3, 2] true (fun w => [w + 1, w + 3, w + 6])).2 = some 6 := by decide
+example : lastViable (twoRounds (fun n : Nat => n % 3 == 0) [5, 3, 2] true (fun w => [w + 1, w + 3, w + 6])).1 = some 6 := by decide
+
+end HistoryThm
